@@ -21,7 +21,10 @@ REQ_B = b"POST /submit HTTP/1.1\r\nHost: api.example.org\r\nUser-Agent: curl/8.1
 RESP_B = b"HTTP/1.0 204 No Content\r\nServer: nginx\r\nConnection: close\r\n\r\n"
 REQ_C = b"GET / HTTP/1.0\r\nHost: h\r\nCookie: " + b"; ".join(b"c%d=%s" % (i, b"v" * 20) for i in range(25)) + b"\r\nUser-Agent: Wget/1.21\r\n\r\n"
 RESP_C = b"HTTP/1.1 404 Not Found\r\nServer: lighttpd\r\nContent-Type: text/plain\r\n\r\nnot found\r\n\r\nreally\r\n"
-PAIRS = [(REQ_A, RESP_A), (REQ_B, RESP_B), (REQ_C, RESP_C)]
+# heads with bare LF line ends (accepted by the parser) followed by bodies that contain CRLF CRLF / LF LF and binary bytes
+REQ_D = b"POST /lf HTTP/1.1\nHost: lf.example\nUser-Agent: lf-agent/1.0\nTransfer-Encoding: chunked\n\n" + b"5\r\nhello\r\n0\r\n\r\n" + b"\x00\xff\n\nrest"
+RESP_D = b"HTTP/1.1 200 OK\nServer: lf-server\nContent-Type: text/plain\nTransfer-Encoding: chunked\n\n" + b"3\r\nabc\r\n0\r\n\r\n"
+PAIRS = [(REQ_A, RESP_A), (REQ_B, RESP_B), (REQ_C, RESP_C), (REQ_D, RESP_D)]
 
 
 def frame(src, dst, sport, dport, seq, ack, flags, payload):
@@ -46,14 +49,19 @@ def run(tier, v):
         raise vlib.ToolError("HttpReasm.tla violates its invariants (%s)" % rA.inv_violated)
     # one-shot references
     req = os.path.join(wd, "base.req")
-    vlib.write_ndjson(req, [{"id": 2 * i, "op": "parse", "kind": "req", "datas": [p[0].hex()]} for i, p in enumerate(PAIRS)] +
-                      [{"id": 2 * i + 1, "op": "parse", "kind": "resp", "datas": [p[1].hex()]} for i, p in enumerate(PAIRS)])
+    def head_only(m):
+        """the message head: up to and including the first blank line (whichever line-end style comes first)"""
+        ends = [m.find(t) + len(t) for t in (b"\r\n\r\n", b"\n\n") if m.find(t) >= 0]
+        return m[:min(ends)]
+    # the reference is the report for the head delivered alone: what follows the blank line and how the bytes are cut must not matter
+    vlib.write_ndjson(req, [{"id": 2 * i, "op": "parse", "kind": "req", "datas": [head_only(p[0]).hex()]} for i, p in enumerate(PAIRS)] +
+                      [{"id": 2 * i + 1, "op": "parse", "kind": "resp", "datas": [head_only(p[1]).hex()]} for i, p in enumerate(PAIRS)])
     bout = os.path.join(wd, "base.out")
     vlib.run_hv("http", req, bout)
     base = {}
     for o in vlib.read_ndjson(bout):
         if o["out"][0]["r"] != "some":
-            raise vlib.ToolError("reference message %d is not parsed one-shot: %s" % (o["id"], o))
+            raise vlib.ToolError("reference head %d is not parsed on its own: %s" % (o["id"], o))
         base[o["id"]] = hashlib.sha1(json.dumps(o["out"][0]["v"], sort_keys=True).encode()).hexdigest()
     scen = []
 
